@@ -7,7 +7,8 @@ from checks import stmtcache_driver as sd
 LEVEL = "model_checking"
 MANIFEST = dict(
     text="StmtShapes.tla is a grammar of ~800 well-formed Core/ORM statement shapes (select / joins / subquery / CTE / union / EXISTS / "
-         "LIMIT / labels / DISTINCT / loader options / INSERT-UPDATE-DELETE with RETURNING) with their meaning over a fixed 5-row database: "
+         "LIMIT / labels / DISTINCT / loader options / INSERT-UPDATE-DELETE with RETURNING / TextualSelect / cast, type_coerce, literal and typed "
+         "bindparam over types that differ in one constructor argument) with their meaning over a fixed 5-row database: "
          "bound values in placeholder order (declaratively and via extracted-parameter positions; TLC checks both agree), result ids, "
          "rowcount, secondary selectin statement. StmtCache.tla is the engine's compiled cache as a state machine (squishy LRU of capacity 2, "
          "entries remember the execution that populated them, hits rebind by position); TLC checks in every reachable cache state that the "
@@ -18,8 +19,8 @@ MANIFEST = dict(
          "replayed on an engine with query_cache_size=2 and in lockstep on a cache-less engine, comparing SQL text, parameters, cache_hit, rows "
          "and the real LRU content with the specification after every step.",
     design_ref="3.13, 4 (C02)",
-    note="trusted: TLC, SQLite as the database, the shape builder checks/stmt_common.py; SQLite dialect only; integer columns only (bind "
-         "types are compared but never differ inside one shape); groups of 4 shapes sampled per run, not all pairs share a cache",
+    note="trusted: TLC, SQLite as the database, the shape builder checks/stmt_common.py; SQLite dialect only; integer table columns (bind "
+         "types are compared by repr); groups of 4 shapes sampled per run, not all pairs share a cache",
     technique="TLA+ specs (StmtShapes.tla, StmtCache.tla) + TLC exhaustive over the cache graph; spec->code: TLC-enumerated shape table "
               "executed on real engines + replay of every state-graph edge")
 INVS = ["Transparent", "NoStaleValues", "KeysSound", "LruSane", "OnlyDocumentedError", "NoErrorWithoutMaps"]
